@@ -805,6 +805,14 @@ class Interp:
             self.assign(t, v, fr)
 
     def x_AnnAssign(self, s, fr):
+        if getattr(fr, "is_class", False) and isinstance(s.target, ast.Name):
+            # class body: the annotation is recorded (python semantics; `@dataclass` reads __annotations__ to find the fields).  The
+            # annotation expression itself is kept as its source text (as under `from __future__ import annotations`): only the names matter
+            ann = fr.locals.get("__annotations__")
+            if ann is None:
+                ann = {}
+                fr.store("__annotations__", ann)
+            ann[s.target.id] = ast.unparse(s.annotation)
         if s.value is not None:
             self.assign(s.target, self.ev(s.value, fr), fr)
 
